@@ -26,7 +26,7 @@ MODEL = {
     "C09": "Model/Auth.lean on the store model; Lemmas/Auth.lean",
     "C10": "Model/Config.lean (deep-embedded Encode / Decode / DiffPoints / MergePoints); Lemmas/ConfigRoundtrip*, ConfigField",
     "C11": "Model/Config.lean; Lemmas/ConfigTotal.lean",
-    "C12": "Model/Proto3.lean, Model/Pb.lean; Lemmas/Pb.lean, Itoa.lean",
+    "C12": "Model/Proto3.lean, Model/Pb.lean; Lemmas/Pb.lean, Proto3.lean (wire level), PbBytes.lean (message level), Itoa.lean",
     "C13": "Model/Rule.lean (+ Model/Schedule.lean); Lemmas/Rule.lean",
     "C14": "Model/Schedule.lean, Spec/Window.lean; Lemmas/Schedule.lean",
     "C15": "Model/Export.lean on the store model; Lemmas/Export.lean",
